@@ -365,6 +365,7 @@ def _parse_diff(fn, n):
 
 
 PTR_ASSUME = None     # hook: (fn, d, comparison node, truth) -> True if it was a comparison of modelled pointers and has been applied
+COND_EXTRA = None     # hook: (fn, d, condition node, truth): facts a client analysis attaches to a branch outcome (rules/blockscan.py)
 
 
 def assume(fn, d, cond, truth):
@@ -373,6 +374,10 @@ def assume(fn, d, cond, truth):
     if n is None or d.bot:
         return d
     k = n['k']
+    if COND_EXTRA is not None:
+        COND_EXTRA(fn, d, n, truth)
+        if d.bot:
+            return d
     if PTR_ASSUME is not None and k == 'BinaryOperator' and n.get('op') in ('<', '<=', '>', '>=', '==', '!=') and PTR_ASSUME(fn, d, n, truth):
         return d
     if k == 'UnaryOperator' and n.get('op') == '!':
